@@ -473,6 +473,63 @@ func truthScript(v operand) string {
 		"try { __obs(\"cast\", (bool)$v); } catch (Throwable $e) { __obs(\"!cast\", $e->getMessage()); }\n"
 }
 
+// ---- a comparison gives the same answer wherever it is written ----
+
+var cmpCtxOps = []string{"<", "<=", ">", ">=", "==", "!="}
+var cmpCtxLits = []string{"0", "1", "3", "-1", "10"}
+
+func cmpCtxScript(v operand, lit string) string {
+	var b strings.Builder
+	b.WriteString("<?php\n$v = " + v.Lit + ";\n")
+	for i, op := range cmpCtxOps {
+		e := "$v " + op + " " + lit
+		fmt.Fprintf(&b, "try { __obs(\"e%d\", %s); } catch (Throwable $e) { __obs(\"!e%d\", 1); }\n", i, e, i)
+		fmt.Fprintf(&b, "try { if (%s) { __obs(\"i%d\", true); } else { __obs(\"i%d\", false); } } catch (Throwable $e) { __obs(\"!i%d\", 1); }\n", e, i, i, i)
+		fmt.Fprintf(&b, "try { $n = false; while (%s) { $n = true; break; } __obs(\"w%d\", $n); } catch (Throwable $e) { __obs(\"!w%d\", 1); }\n", e, i, i)
+		fmt.Fprintf(&b, "try { $n = false; for (; %s; ) { $n = true; break; } __obs(\"f%d\", $n); } catch (Throwable $e) { __obs(\"!f%d\", 1); }\n", e, i, i)
+		fmt.Fprintf(&b, "try { $n = false; for ($q = $v; $q %s %s; ) { $n = true; break; } __obs(\"g%d\", $n); } catch (Throwable $e) { __obs(\"!g%d\", 1); }\n", op, lit, i, i)
+		fmt.Fprintf(&b, "try { __obs(\"t%d\", %s ? true : false); } catch (Throwable $e) { __obs(\"!t%d\", 1); }\n", i, e, i)
+	}
+	return b.String()
+}
+
+// c03JudgeCmpCtx: for one value and one int literal, each comparison operator must give one answer in
+// expression, if, while, for (with the value in a plain variable and in the loop variable) and ?:.
+func c03JudgeCmpCtx(pool *sb.Pool, rec *sb.Rec, v operand, lit string) *failure {
+	src := cmpCtxScript(v, lit)
+	rep := pool.Exec(&sb.Req{Kind: "script", Src: src, Tmpl: true, Run: true})
+	rec.Eval()
+	if rep.Outcome == sb.Infra {
+		rec.InfraProblem("%s", rep.Msg)
+		return nil
+	}
+	if rep.Outcome != sb.OK {
+		return &failure{Key: "cell:crash:cmp-context:" + v.Kind, Detail: fmt.Sprintf("%s comparing %s with %s in several contexts: %s", rep.Outcome, v.Lit, lit, clip(rep.Msg, 160)), Case: c03Case{A: v, Src: src, Which: "cmpctx:" + lit}}
+	}
+	m := parseObs(rep.Obs)
+	for i, op := range cmpCtxOps {
+		var got []string
+		seen := map[string]bool{}
+		for _, c := range []string{"e", "i", "w", "f", "g", "t"} {
+			k := fmt.Sprintf("%s%d", c, i)
+			val := "error"
+			if s, ok := m[k]; ok {
+				if b, isb := boolOf(s); isb {
+					val = fmt.Sprint(b)
+				} else {
+					val = s
+				}
+			}
+			seen[val] = true
+			got = append(got, map[string]string{"e": "expr", "i": "if", "w": "while", "f": "for", "g": "for-loopvar", "t": "ternary"}[c]+"="+val)
+		}
+		if len(seen) > 1 {
+			return &failure{Key: "cell:cmp-context:" + op + ":" + v.Kind, Detail: fmt.Sprintf("%s %s %s depends on where it is written: %s", v.Lit, op, lit, strings.Join(got, " ")), Case: c03Case{A: v, Src: src, Which: "cmpctx:" + lit}}
+		}
+	}
+	return nil
+}
+
 func c03JudgeTruth(pool *sb.Pool, rec *sb.Rec, v operand) *failure {
 	src := truthScript(v)
 	rep := pool.Exec(&sb.Req{Kind: "script", Src: src, Tmpl: true, Run: true})
@@ -542,7 +599,7 @@ func TestC03(t *testing.T) {
 	cfg := sb.LoadConfig("C03")
 	rec := sb.NewRec(cfg)
 	defer rec.Flush()
-	rec.R.Rule = fmt.Sprintf("complete enumeration of all ordered pairs over a pool of %d boundary operands (ints incl. min/max/2^53+1, floats incl. -0.0 and 1e308, strings, bools, null, arrays, object) x %d binary operators + unary ! - ~, one script per pair with each operator in its own try/catch, results read through the typed observation sink; plus the eight truthiness contexts per pool value; plus rapid-drawn random int/float/string operands. Clauses: exact value and type on the documented domain, coherence laws and no-crash on every pair. Non-trivial = operand kinds differ or an operand is a boundary value (non-small int, float, non-alphabetic string); distinct by (lhs, rhs).", len(c03Pool), len(c03Ops))
+	rec.R.Rule = fmt.Sprintf("complete enumeration of all ordered pairs over a pool of %d boundary operands (ints incl. min/max/2^53+1, floats incl. -0.0 and 1e308, strings, bools, null, arrays, object) x %d binary operators + unary ! - ~, one script per pair with each operator in its own try/catch, results read through the typed observation sink; plus the eight truthiness contexts per pool value; plus every pool value compared with 5 int literals by 6 comparison operators in 6 contexts (expression, if, while, for with a plain and with the loop variable, ?:), which must agree; plus rapid-drawn random int/float/string operands. Clauses: exact value and type on the documented domain, coherence laws and no-crash on every pair. Non-trivial = operand kinds differ or an operand is a boundary value (non-small int, float, non-alphabetic string); distinct by (lhs, rhs).", len(c03Pool), len(c03Ops))
 	pool := &sb.Pool{}
 	defer pool.Close()
 	dl := time.Now().Add(budget(cfg, 50, 600))
@@ -557,6 +614,12 @@ func TestC03(t *testing.T) {
 		rec.NonTrivial(c.A.Lit, c.B.Lit)
 		rec.NonTrivial(c.A.Lit, c.B.Lit, "replay")
 		var fs []*failure
+		if strings.HasPrefix(c.Which, "cmpctx:") {
+			if f := c03JudgeCmpCtx(pool, rec, c.A, strings.TrimPrefix(c.Which, "cmpctx:")); f != nil {
+				rec.Fail(rf.Key, f.Detail, f.Case)
+			}
+			return
+		}
 		if c.Which == "truthy" {
 			if f := c03JudgeTruth(pool, rec, c.A); f != nil {
 				fs = append(fs, f)
@@ -599,6 +662,20 @@ func TestC03(t *testing.T) {
 		rec.NonTrivial("truthy", v.Lit)
 		if f := c03JudgeTruth(pool, rec, v); f != nil {
 			rec.Fail(f.Key, f.Detail, f.Case)
+		}
+	}
+	ci := 0
+	for _, v := range c03Pool {
+		for _, lit := range cmpCtxLits {
+			ci++
+			if !cfg.Mine(ci) {
+				continue
+			}
+			rec.Label("cmp-context:"+v.Kind, v.Lit+" vs "+lit)
+			rec.NonTrivial("cmpctx", v.Lit, lit)
+			if f := c03JudgeCmpCtx(pool, rec, v, lit); f != nil {
+				rec.Fail(f.Key, f.Detail, f.Case)
+			}
 		}
 	}
 	rec.R.Exhaustive = true
